@@ -93,11 +93,16 @@ def check(ctx):
             ctx.require(R1, not (set(okb) & r), c.where(), "after the key write the only way to success is through write_certificate", [RC, "key-without-certificate"])
     # who may write the key
     callers = effective_callers(prog, SETK)
-    ctx.require(R1, callers <= {STORE}, "acmed/src/storage.rs", "storage::set_keypair is called only by certificate::store_key_pair (%s)" % sorted(callers), [SETK, "callers"])
-    callers = effective_callers(prog, STORE)
-    ctx.require(R1, callers <= {RC}, "acmed/src/acme_proto/certificate.rs", "store_key_pair is called only by request_certificate (%s)" % sorted(callers), [STORE, "callers"])
+    # the key file has one writer: request_certificate, directly or through its storing helper (store_key_pair today)
+    ctx.require(R1, callers <= {STORE, RC}, "acmed/src/storage.rs", "storage::set_keypair is called only from request_certificate, through certificate::store_key_pair (%s)" % sorted(callers), [SETK, "callers"])
+    if prog.body(STORE) is not None:
+        callers = effective_callers(prog, STORE)
+        ctx.require(R1, callers <= {RC}, "acmed/src/acme_proto/certificate.rs", "store_key_pair is called only by request_certificate (%s)" % sorted(callers), [STORE, "callers"])
 
     R2 = ctx.rule("R2", "certificate and key are written only after the body parsed (from_pem Ok) and its public key matched the CSR key (has_public_key_of true)")
+    from .request_model import key_rule as _key_rule, request_traces as _rtr
+    if _rtr(prog) is not None:
+        _key_rule(ctx, R2, _rtr(prog))
     fp = b.calls_to(FROMPEM)
     ctx.floor(R2, "X509Certificate::from_pem on the downloaded body", len(fp), 1)
     fp_ok = [e for c in fp for e in ok_edges_of(b, c)]
@@ -119,7 +124,12 @@ def check(ctx):
         recv = arg_origins(c, 0)
         arg = arg_origins(c, 1)
         ctx.require(R2, any(x.is_(FROMPEM) for x in recv.calls), c.where(), "the compared certificate is the parsed download", [RC, "match-receiver"])
-        ctx.require(R2, any(x.is_or_polls(GKP) for x in arg.calls), c.where(), "it is compared with the key pair obtained for this CSR (get_key_pair)", [RC, "match-key"])
+        from .request_model import request_traces as _rt
+        if _rt(prog) is None:             # otherwise decided by value in R3 (`same-key`: the key compared is the key that signed the CSR)
+            ctx.require(R2, any(x.is_or_polls(GKP) for x in arg.calls), c.where(), "it is compared with the key pair obtained for this CSR (get_key_pair)", [RC, "match-key"])
+        else:
+            csr_keys = [arg_origins(x, 0) for x in b.calls_to("acme_common::crypto::openssl_certificate::Csr::new")]
+            ctx.require(R2, any(k_.locals & arg.locals for k_ in csr_keys), c.where(), "it is compared with the key pair that signed this attempt's CSR", [RC, "match-key"])
     if not direct:
         # look for callees that establish the match on every success path
         for p in b.calls:
@@ -186,6 +196,12 @@ def check(ctx):
 def new_key_flag_rule(ctx, R3):
     prog = ctx.prog
     b = prog.async_body(RC)
+    # evaluation-first (props/request_model.py): request_certificate interpreted for kp_reuse x stored key readable x download outcome
+    from .request_model import request_traces, store_rule
+    rtr = request_traces(prog)
+    if rtr is not None:
+        store_rule(ctx, R3, rtr)
+        return
     gk = prog.async_body(GKP)
     tuples = []
     for i in sorted(gk.live_blocks()):
